@@ -141,6 +141,19 @@ CHECKS["C20"] = (
     "5/C20",
 )
 
+CHECKS["C18"] = (
+    "model_checking",
+    "exhaustive enumeration of dataset sizes, scopes and export switches on real engines against a reference grid and per-row processing",
+    "For engines with 1-4 inputs every requested size v in 1..300 (thorough 1..2000) under AllVariables and a range "
+    "of sizes under EachVariable is exported and compared line by line with the reference table: integer-root grid "
+    "size, itertools.product order (last input fastest), header, and for each row the output the engine produces "
+    "when the rows are processed one by one with Python floats on a separate copy; all switch/separator/decimals "
+    "combinations for small v; all reader contents of <= 5 lines over 5 line kinds x skip_lines 0..2.",
+    "One engine per input count (Takagi-Sugeno + Mamdani outputs, lock-previous on one output); numbers may differ in "
+    "the last printed digit only when within one unit of it (counted as last_digit_rounding).",
+    "5/C18",
+)
+
 REASON_NOT_BUILT = "check not built yet in this phase (planned in DESIGN.md section 5); no claim is made"
 
 
